@@ -20,14 +20,14 @@ class ElementQuadN1(ElementHcurl):
         x, y = X
         nil = np.zeros_like(x)
         if i == 0:
-            phi = np.array([y - 1.0, nil])
-            dphi = -np.ones_like(x)
+            phi = np.array([1.0 - y, nil])
+            dphi = np.ones_like(x)
         elif i == 1:
             phi = np.array([nil, x])
             dphi = np.ones_like(x)
         elif i == 2:
-            phi = np.array([y, nil])
-            dphi = -np.ones_like(x)
+            phi = np.array([-y, nil])
+            dphi = np.ones_like(x)
         elif i == 3:
             phi = np.array([nil, 1.0 - x])
             dphi = -np.ones_like(x)
